@@ -52,6 +52,7 @@ type Contract struct {
 	Sites    []SiteClause
 	Bound    bool
 	Terminates bool
+	TermTags []string
 	Assigns  []string
 	Line     int
 	File     string
@@ -73,7 +74,7 @@ type SpecFunc struct {
 	Opaque bool
 }
 
-var kwRe = regexp.MustCompile(`^(func|spec|preserved|internal|inline|eosexit|requires|ensures|decreases|loop|safe|modular|terminates|witness|witnessgo|unordered|usesonly|mapwrite|callsite|nobody|sitesonly|end)\b`)
+var kwRe = regexp.MustCompile(`^(func|spec|readers|preserved|internal|inline|eosexit|requires|ensures|decreases|loop|safe|modular|terminates|witness|witnessgo|unordered|usesonly|mapwrite|callsite|nobody|sitesonly|end)\b`)
 
 func (e *Engine) loadContracts() error {
 	e.contracts = map[string]*Contract{}
@@ -167,6 +168,11 @@ func (e *Engine) parseContractFile(file, pkgPath, data string) error {
 					e.internal = map[string][]string{}
 				}
 				e.internal[fields[1]] = strings.Split(fields[2], ",")
+			}
+		case "readers":
+			// readers[Cxx] <pkg.Global> <func>,<func>,...: the global is accessed only inside these functions
+			if len(fields) >= 3 {
+				e.readers = append(e.readers, ReadersClause{Tags: tags, Global: fields[1], Funcs: strings.Split(fields[2], ",")})
 			}
 		case "preserved":
 			// preserved <pred> <type> owners <pkg>,<pkg>,...
@@ -302,6 +308,7 @@ func (e *Engine) parseContractFile(file, pkgPath, data string) error {
 			cur.NoBody = true // only the syntactic (def-use) obligations; the body is not executed
 		case "terminates":
 			cur.Terminates = true
+			cur.TermTags = tags
 		case "witness":
 			// witness <obligation-suffix> "<source>"
 			// optional:  expect "<substring of the output>"   args "<extra command line>"
